@@ -231,44 +231,514 @@ Theorem health_shutdown h : reach h -> hshut h = true ->
   forall k v, lookup k (hmap h) = Some v -> v = NOT_SERVING.
 Proof. intros R S. destruct (reach_inv h R) as (_ & X). exact (X S). Qed.
 
-(* ---- bridge, partial: op lists without Watch streams (clause 5: Check / Shutdown / Resume) ---- *)
+(* ---- bridge: the monitor accepts every model trace (all op lists, Watch streams included) ---- *)
 Definition all_ok (cs : list cl) : bool := forallb (fun c => snd c) cs.
-Definition nowatch (op : word) : bool :=
-  match op with [1; _; _] | [2] | [3] | [4; _] | [6; _] | [7; _] => true | _ => false end.
+Lemma all_ok_app a b : all_ok (a ++ b) = all_ok a && all_ok b.
+Proof. apply forallb_app. Qed.
 Lemma word_eqb_refl w : word_eqb w w = true.
 Proof. induction w as [|x w IH]; cbn; [reflexivity|]. rewrite Z.eqb_refl, IH. reflexivity. Qed.
+
+(* the specification state that corresponds to a model state *)
+Definition abs (x : wat) : mw := mkmw (wid x) (wsvc x) (wsend x) (wlast x) (wrep x) (walive x) (whold x).
+Definition absh (h : hs) : mon := mkmon (hshut h) (hmap h) (map abs (hws h)).
+
+(* -- mfind / mupd -- *)
+Lemma mfind_mid w l x : mfind w l = Some x -> mid x = w.
+Proof.
+  induction l as [|y r IH]; cbn; [discriminate|].
+  destruct (mid y =? w) eqn:E; [intro H; inv H; apply Z.eqb_eq; exact E|exact IH].
+Qed.
+Lemma mupd_same l x : mfind (mid x) l = Some x -> mupd x l = l.
+Proof.
+  induction l as [|y r IH]; cbn; [reflexivity|].
+  destruct (mid y =? mid x) eqn:E; intro H; [inv H; reflexivity|f_equal; auto].
+Qed.
+Lemma mfind_mupd_other w x' l : mid x' <> w -> mfind w (mupd x' l) = mfind w l.
+Proof.
+  intro N. induction l as [|y r IH]; cbn; [reflexivity|].
+  destruct (mid y =? mid x') eqn:E; cbn.
+  - apply Z.eqb_eq in E. destruct (mid x' =? w) eqn:E1; [apply Z.eqb_eq in E1; congruence|].
+    destruct (mid y =? w) eqn:E2; [apply Z.eqb_eq in E2; congruence|reflexivity].
+  - destruct (mid y =? w); auto.
+Qed.
+Lemma mupd_comm a b l : mid a <> mid b -> mupd a (mupd b l) = mupd b (mupd a l).
+Proof.
+  intro N. induction l as [|y r IH]; cbn; [reflexivity|].
+  destruct (mid y =? mid b) eqn:Eb; destruct (mid y =? mid a) eqn:Ea; cbn; rewrite ?Ea, ?Eb.
+  - apply Z.eqb_eq in Ea, Eb. congruence.
+  - apply Z.eqb_eq in Eb. rewrite <- Eb, Ea. reflexivity.
+  - apply Z.eqb_eq in Ea. rewrite <- Ea, Eb. reflexivity.
+  - rewrite IH. reflexivity.
+Qed.
+
+(* -- one event only concerns the entry of its stream -- *)
+Definition evx (mp : list (Z * Z)) (e : ev) (x : mw) : mw * list cl :=
+  match e with
+  | EStart w s => (mkmw w (msvc x) (Some s) s (mrep x) (malive x) (mhold x),
+       [(1, w, malive x && (s =? cur mp (msvc x)) && match msend x with None => true | Some _ => false end);
+        (2, w, negb (s =? mlast x))])
+  | ESent w s => (mkmw w (msvc x) None (mlast x) s (malive x) (mhold x),
+       [(3, w, malive x && match msend x with Some s' => s =? s' | None => false end)])
+  | EFail w s => (mkmw w (msvc x) None (mlast x) (mrep x) (malive x) (mhold x),
+       [(3, w, negb (malive x) && match msend x with Some s' => s =? s' | None => false end)])
+  | EExit w => (x, [(3, w, negb (malive x) && match msend x with None => true | Some _ => false end)])
+  end.
+Lemma mon_ev_found m e x : mfind (ev_w e) (mws m) = Some x ->
+  mon_ev m e = (mkmon (mshut m) (mmap m) (mupd (fst (evx (mmap m) e x)) (mws m)), snd (evx (mmap m) e x)).
+Proof.
+  intro F. destruct e; cbn in *; rewrite F; try reflexivity.
+  rewrite mupd_same; [destruct m; reflexivity|]. rewrite (mfind_mid _ _ _ F). exact F.
+Qed.
+Lemma mon_ev_notfound m e : mfind (ev_w e) (mws m) = None -> all_ok (snd (mon_ev m e)) = false.
+Proof. destruct e; cbn; intro F; rewrite F; reflexivity. Qed.
+Lemma evx_mid mp e x : mid x = ev_w e -> mid (fst (evx mp e x)) = ev_w e.
+Proof. destruct e; cbn; auto. Qed.
+
+Lemma swap_ev m e x m1 c1 m2 c2 : ev_w e <> ev_w x ->
+  mon_ev m e = (m1, c1) -> all_ok c1 = true -> mon_ev m1 x = (m2, c2) -> all_ok c2 = true ->
+  exists m1', mon_ev m x = (m1', c2) /\ mon_ev m1' e = (m2, c1).
+Proof.
+  intros N H1 O1 H2 O2.
+  destruct (mfind (ev_w e) (mws m)) as [a|] eqn:Fa;
+    [|pose proof (mon_ev_notfound m e Fa) as X; rewrite H1 in X; cbn [snd] in X; congruence].
+  rewrite (mon_ev_found m e a Fa) in H1. inv H1.
+  pose proof (evx_mid (mmap m) e a (mfind_mid _ _ _ Fa)) as Ma.
+  set (a' := fst (evx (mmap m) e a)) in *.
+  assert (Fb' : mfind (ev_w x) (mupd a' (mws m)) = mfind (ev_w x) (mws m))
+    by (apply mfind_mupd_other; congruence).
+  destruct (mfind (ev_w x) (mws m)) as [b|] eqn:Fb.
+  2:{ pose proof (mon_ev_notfound (mkmon (mshut m) (mmap m) (mupd a' (mws m))) x Fb') as X.
+      rewrite H2 in X. cbn [snd] in X. congruence. }
+  rewrite (mon_ev_found (mkmon (mshut m) (mmap m) (mupd a' (mws m))) x b Fb') in H2. cbn [mshut mmap mws] in H2. inv H2.
+  pose proof (evx_mid (mmap m) x b (mfind_mid _ _ _ Fb)) as Mb.
+  set (b' := fst (evx (mmap m) x b)) in *.
+  eexists. split; [apply (mon_ev_found m x b Fb)|].
+  fold b'.
+  assert (Fa' : mfind (ev_w e) (mupd b' (mws m)) = Some a)
+    by (rewrite mfind_mupd_other; [exact Fa|congruence]).
+  rewrite (mon_ev_found (mkmon (mshut m) (mmap m) (mupd b' (mws m))) e a Fa'). cbn [mshut mmap mws]. fold a'.
+  rewrite (mupd_comm b' a'); [reflexivity|congruence].
+Qed.
+
+Lemma mon_evs_app : forall a m b, mon_evs m (a ++ b) =
+  let (m1, c1) := mon_evs m a in let (m2, c2) := mon_evs m1 b in (m2, c1 ++ c2).
+Proof.
+  induction a as [|e a IH]; intros m b; cbn [app mon_evs].
+  - destruct (mon_evs m b); reflexivity.
+  - destruct (mon_ev m e) as [m1 c1]. rewrite IH. destruct (mon_evs m1 a) as [m2 c2].
+    destruct (mon_evs m2 b) as [m3 c3]. rewrite app_assoc. reflexivity.
+Qed.
+
+(* sorting the events of one op by stream does not change the monitor's final state nor its verdict *)
+Lemma ins_ok : forall l m e m' cs, mon_evs m (e :: l) = (m', cs) -> all_ok cs = true ->
+  exists cs', mon_evs m (ins_ev e l) = (m', cs') /\ all_ok cs' = true.
+Proof.
+  induction l as [|x r IH]; intros m e m' cs H Ok; [cbn [ins_ev]; eauto|].
+  cbn [ins_ev]. destruct (ev_w e <=? ev_w x) eqn:L; [eauto|].
+  cbn [mon_evs] in H. destruct (mon_ev m e) as [m1 c1] eqn:E1. destruct (mon_ev m1 x) as [m2 c2] eqn:E2.
+  destruct (mon_evs m2 r) as [m3 c3] eqn:E3. inv H.
+  rewrite !all_ok_app in Ok. apply andb_true_iff in Ok. destruct Ok as (O1 & Ok).
+  apply andb_true_iff in Ok. destruct Ok as (O2 & O3).
+  apply Z.leb_gt in L. assert (N : ev_w e <> ev_w x) by lia.
+  destruct (swap_ev _ _ _ _ _ _ _ N E1 O1 E2 O2) as (m1' & A & B).
+  destruct (IH m1' e m' (c1 ++ c3)) as (cs' & C & OC).
+  { cbn [mon_evs]. rewrite B, E3. reflexivity. }
+  { rewrite all_ok_app, O1, O3. reflexivity. }
+  exists (c2 ++ cs'). cbn [mon_evs]. rewrite A, C. split; [reflexivity|]. rewrite all_ok_app, O2, OC. reflexivity.
+Qed.
+Lemma sort_ok : forall l m m' cs, mon_evs m l = (m', cs) -> all_ok cs = true ->
+  exists cs', mon_evs m (sort_evs l) = (m', cs') /\ all_ok cs' = true.
+Proof.
+  induction l as [|e l IH]; intros m m' cs H Ok; [cbn; eauto|].
+  cbn [sort_evs fold_right]. fold (sort_evs l).
+  cbn [mon_evs] in H. destruct (mon_ev m e) as [m1 c1] eqn:E1. destruct (mon_evs m1 l) as [m2 c2] eqn:E2. inv H.
+  rewrite all_ok_app in Ok. apply andb_true_iff in Ok. destruct Ok as (O1 & O2).
+  destruct (IH _ _ _ E2 O2) as (cs' & A & OA).
+  apply (ins_ok (sort_evs l) m e m' (c1 ++ cs')).
+  - cbn [mon_evs]. rewrite E1, A. reflexivity.
+  - rewrite all_ok_app, O1, OA. reflexivity.
+Qed.
+
+(* -- the event encoding round-trips -- *)
+Lemma dec_enc : forall l f, (length l <= f)%nat -> dec_evs_f f (concat (map enc_ev l)) = Some l.
+Proof.
+  induction l as [|e l IH]; intros f Hf; [destruct f; reflexivity|].
+  destruct f as [|f]; [cbn in Hf; lia|]. cbn in Hf.
+  destruct e; cbn [map concat enc_ev app dec_evs_f Z.eqb Pos.eqb]; rewrite IH by lia; reflexivity.
+Qed.
+Lemma len_enc l : length (concat (map enc_ev l)) = (3 * length l)%nat.
+Proof. induction l as [|e l IH]; [reflexivity|]. cbn [map concat]. rewrite app_length, IH. destruct e; cbn; lia. Qed.
+Lemma dec_enc_evs l : dec_evs (enc_evs l) = Some (sort_evs l).
+Proof. unfold dec_evs, enc_evs. apply dec_enc. rewrite len_enc. lia. Qed.
+
+(* -- lists of streams with unique ids -- *)
+Lemma on_w_none f w ws : ~ In w (map wid ws) -> on_w f w ws = (ws, []).
+Proof.
+  induction ws as [|x r IH]; cbn; [reflexivity|]. intro N. rewrite IH by tauto.
+  destruct (wid x =? w) eqn:E; [apply Z.eqb_eq in E; tauto|reflexivity].
+Qed.
+Lemma on_w_mid f w a x b : ~ In w (map wid a) -> ~ In w (map wid b) -> wid x = w ->
+  on_w f w (a ++ x :: b) = (a ++ fst (f x) :: b, snd (f x)).
+Proof.
+  intros Na Nb E. induction a as [|y a IH]; cbn.
+  - rewrite (on_w_none f w b Nb). rewrite E, Z.eqb_refl. destruct (f x); cbn. rewrite app_nil_r. reflexivity.
+  - cbn in Na. rewrite IH by tauto. destruct (wid y =? w) eqn:E1; [apply Z.eqb_eq in E1; tauto|reflexivity].
+Qed.
+Lemma mfind_mid_abs a x b : ~ In (wid x) (map wid a) -> mfind (wid x) (map abs (a ++ x :: b)) = Some (abs x).
+Proof.
+  induction a as [|y a IH]; cbn; intro N; [rewrite Z.eqb_refl; reflexivity|].
+  destruct (wid y =? wid x) eqn:E; [apply Z.eqb_eq in E; tauto|apply IH; tauto].
+Qed.
+Lemma mupd_mid_abs a x b x' : ~ In (wid x) (map wid a) -> wid x' = wid x ->
+  mupd (abs x') (map abs (a ++ x :: b)) = map abs (a ++ x' :: b).
+Proof.
+  intros N E. induction a as [|y a IH]; cbn; [rewrite E, Z.eqb_refl; reflexivity|].
+  cbn in N. rewrite E. destruct (wid y =? wid x) eqn:E1; [apply Z.eqb_eq in E1; tauto|].
+  f_equal. apply IH. tauto.
+Qed.
+Lemma has_wid_false w ws : has_wid w ws = false -> ~ In w (map wid ws).
+Proof.
+  induction ws as [|x r IH]; cbn; [tauto|]. intro H. apply orb_false_iff in H. destruct H as (H1 & H2).
+  apply Z.eqb_neq in H1. intros [X|X]; [congruence|exact (IH H2 X)].
+Qed.
+Lemma nodup_mid (a : list wat) x b : NoDup (map wid (a ++ x :: b)) ->
+  ~ In (wid x) (map wid a) /\ ~ In (wid x) (map wid b).
+Proof.
+  rewrite map_app. cbn. intro N. apply NoDup_remove_2 in N. rewrite in_app_iff in N. tauto.
+Qed.
+Lemma split_unique ws w : NoDup (map wid ws) -> has_wid w ws = true ->
+  exists a x b, ws = a ++ x :: b /\ wid x = w /\ ~ In w (map wid a) /\ ~ In w (map wid b).
+Proof.
+  intros N H. apply existsb_exists in H. destruct H as (x & Hx & E). apply Z.eqb_eq in E.
+  destruct (in_split _ _ Hx) as (a & b & ->). exists a, x, b. subst w.
+  destruct (nodup_mid a x b N). auto.
+Qed.
+Lemma map_wid_replace (a : list wat) x x' b : wid x' = wid x -> map wid (a ++ x' :: b) = map wid (a ++ x :: b).
+Proof. intro E. rewrite !map_app. cbn. rewrite E. reflexivity. Qed.
+Lemma nodup_snoc (l : list Z) a : NoDup l -> ~ In a l -> NoDup (l ++ [a]).
+Proof.
+  induction 1 as [|y l Hy Hl IH]; cbn; intro N; [constructor; [tauto|constructor]|].
+  constructor; [|apply IH; tauto]. rewrite in_app_iff. cbn. intros [X|[X|[]]]; [tauto|]. subst. tauto.
+Qed.
+
+(* -- what one stream step looks like to the monitor -- *)
+Definition simf (mp : list (Z * Z)) (f : wat -> wat * list ev) : Prop :=
+  forall x, wat_ok mp x -> forall sh l, mfind (wid x) l = Some (abs x) ->
+  exists cs, mon_evs (mkmon sh mp l) (snd (f x)) = (mkmon sh mp (mupd (abs (fst (f x))) l), cs) /\ all_ok cs = true.
+
+Lemma mupd_same' l i x : mfind i l = Some x -> mupd x l = l.
+Proof. intro F. apply mupd_same. rewrite (mfind_mid _ _ _ F). exact F. Qed.
+Ltac same F := exists []; unfold abs in *; cbn in *; rewrite (mupd_same' _ _ _ F); auto.
+
+Lemma take1_sim mp : simf mp take1.
+Proof.
+  intros x (A & _) sh l F. destruct x as [i sv sl sd la rp al ho hi]. cbn in A, F.
+  unfold take1; cbn [walive wsend wslot wlast wid wsvc wrep whold whist].
+  destruct al; [|same F].
+  destruct sd as [s0|]; [same F|].
+  destruct sl as [s|]; [|same F].
+  specialize (A eq_refl s eq_refl).
+  destruct (s =? la) eqn:E; [same F|].
+  eexists. cbn [snd fst mon_evs mon_ev mws]. rewrite F. cbn. split; [reflexivity|].
+  rewrite E. rewrite A, Z.eqb_refl. reflexivity.
+Qed.
+Lemma sent1_sim mp : simf mp sent1.
+Proof.
+  intros x _ sh l F. destruct x as [i sv sl sd la rp al ho hi]. cbn in F.
+  unfold sent1; cbn [walive wsend wslot wlast wid wsvc wrep whold whist].
+  destruct al; [|same F].
+  destruct sd as [s0|]; [|same F].
+  eexists. cbn [snd fst mon_evs mon_ev mws]. rewrite F. cbn. split; [reflexivity|].
+  rewrite Z.eqb_refl. reflexivity.
+Qed.
+
+Lemma simf_list mp f a x b sh : simf mp f -> (forall y, wid (fst (f y)) = wid y) -> wat_ok mp x ->
+  ~ In (wid x) (map wid a) ->
+  exists cs, mon_evs (mkmon sh mp (map abs (a ++ x :: b))) (snd (f x)) =
+             (mkmon sh mp (map abs (a ++ fst (f x) :: b)), cs) /\ all_ok cs = true.
+Proof.
+  intros S Hid W N. destruct (S x W sh _ (mfind_mid_abs a x b N)) as (cs & E & Ok).
+  exists cs. rewrite E, (mupd_mid_abs a x b _ N (Hid x)). auto.
+Qed.
+
+Lemma wid_take1 x : wid (fst (take1 x)) = wid x.
+Proof. destruct x as [i sv sl sd la rp al ho hi]. unfold take1; cbn. destruct al, sd, sl; try destruct (z =? la); try destruct (z0 =? la); reflexivity. Qed.
+Lemma wid_sent1 x : wid (fst (sent1 x)) = wid x.
+Proof. destruct x as [i sv sl sd la rp al ho hi]. unfold sent1; cbn. destruct al, sd; reflexivity. Qed.
+Lemma wid_cancel1 x : wid (fst (cancel1 x)) = wid x.
+Proof. destruct x as [i sv sl sd la rp al ho hi]. unfold cancel1; cbn. destruct al; reflexivity. Qed.
+Lemma whold_take1 x : whold (fst (take1 x)) = whold x.
+Proof. destruct x as [i sv sl sd la rp al ho hi]. unfold take1; cbn. destruct al, sd, sl; try destruct (z =? la); try destruct (z0 =? la); reflexivity. Qed.
+
+(* -- the driver's settle phase, explicitly: every stream does its own steps -- *)
+Definition sstep (x : wat) : list fop := HTake (wid x) :: if whold x then [] else [HSent (wid x)].
+Definition g (x : wat) : wat := if whold x then fst (take1 x) else fst (sent1 (fst (take1 x))).
+Definition gev (x : wat) : list ev :=
+  snd (take1 x) ++ if whold x then [] else snd (sent1 (fst (take1 x))).
+Lemma wid_g x : wid (g x) = wid x.
+Proof. unfold g. destruct (whold x); rewrite ?wid_sent1, wid_take1; reflexivity. Qed.
+
+Lemma settle_run sh mp : forall suf pre, NoDup (map wid (pre ++ suf)) ->
+  hsteps (mkhs sh mp (pre ++ suf)) (flat_map sstep suf) = (mkhs sh mp (pre ++ map g suf), flat_map gev suf).
+Proof.
+  induction suf as [|x suf IH]; intros pre N; [reflexivity|].
+  destruct (nodup_mid pre x suf N) as (Na & Nb).
+  assert (N' : NoDup (map wid ((pre ++ [g x]) ++ suf))).
+  { rewrite <- app_assoc. cbn [app]. rewrite (map_wid_replace pre x (g x) suf (wid_g x)). exact N. }
+  specialize (IH (pre ++ [g x]) N'). rewrite <- !app_assoc in IH. cbn [app] in IH.
+  cbn [flat_map map]. unfold sstep at 1, gev at 1. unfold g in IH at 1 2. unfold g at 1.
+  destruct (whold x) eqn:Ho.
+  - cbn [app hsteps hstep hshut hmap hws]. rewrite (on_w_mid take1 (wid x) pre x suf Na Nb eq_refl).
+    rewrite IH. rewrite app_nil_r. reflexivity.
+  - cbn [app hsteps hstep hshut hmap hws]. rewrite (on_w_mid take1 (wid x) pre x suf Na Nb eq_refl).
+    cbn [hsteps hstep hshut hmap hws].
+    rewrite (on_w_mid sent1 (wid x) pre (fst (take1 x)) suf Na Nb (wid_take1 x)).
+    cbn [hsteps hstep hshut hmap hws]. rewrite IH. rewrite app_assoc. reflexivity.
+Qed.
+
+Lemma settle_mon sh mp : forall suf pre, NoDup (map wid (pre ++ suf)) -> Forall (wat_ok mp) suf ->
+  exists cs, mon_evs (mkmon sh mp (map abs (pre ++ suf))) (flat_map gev suf) =
+             (mkmon sh mp (map abs (pre ++ map g suf)), cs) /\ all_ok cs = true.
+Proof.
+  induction suf as [|x suf IH]; intros pre N W; [exists []; auto|].
+  inversion W as [|x0 l0 Wx Ws]; subst.
+  destruct (nodup_mid pre x suf N) as (Na & Nb).
+  assert (N' : NoDup (map wid ((pre ++ [g x]) ++ suf))).
+  { rewrite <- app_assoc. cbn [app]. rewrite (map_wid_replace pre x (g x) suf (wid_g x)). exact N. }
+  destruct (IH (pre ++ [g x]) N' Ws) as (c3 & E3 & O3). rewrite <- !app_assoc in E3. cbn [app] in E3.
+  cbn [flat_map map]. rewrite mon_evs_app.
+  assert (G : exists c1, mon_evs (mkmon sh mp (map abs (pre ++ x :: suf))) (gev x) =
+                          (mkmon sh mp (map abs (pre ++ g x :: suf)), c1) /\ all_ok c1 = true).
+  { unfold gev, g. rewrite mon_evs_app.
+    destruct (simf_list mp take1 pre x suf sh (take1_sim mp) wid_take1 Wx Na) as (c1 & E1 & O1). rewrite E1.
+    destruct (whold x).
+    - exists (c1 ++ []). cbn [mon_evs]. rewrite all_ok_app, O1. auto.
+    - assert (Na' : ~ In (wid (fst (take1 x))) (map wid pre)) by (rewrite wid_take1; exact Na).
+      destruct (simf_list mp sent1 pre (fst (take1 x)) suf sh (sent1_sim mp) wid_sent1 (take1_ok mp x Wx) Na')
+        as (c2 & E2 & O2). rewrite E2. exists (c1 ++ c2). rewrite all_ok_app, O1, O2. auto. }
+  destruct G as (c1 & E1 & O1). rewrite E1, E3. exists (c1 ++ c3). rewrite all_ok_app, O1, O3. auto.
+Qed.
+
+(* -- what holds between driver ops: non-blocking streams are never left inside Send (K);
+      after the settle phase a stream outside Send has an empty channel (Q) -- *)
+Definition K (x : wat) : Prop := walive x = true -> whold x = false -> wsend x = None.
+Definition Q (x : wat) : Prop := walive x = true -> wsend x = None -> wslot x = None.
+Lemma g_KQ x : K x -> K (g x) /\ Q (g x).
+Proof.
+  destruct x as [i sv sl sd la rp al ho hi]. unfold K, Q, g, take1, sent1; cbn. intro H.
+  destruct al, ho, sd as [s|], sl as [t|]; cbn; try (destruct (t =? la)); cbn;
+    try (specialize (H eq_refl eq_refl); discriminate H); split; intros; auto; discriminate.
+Qed.
+Definition inv (h : hs) : Prop := hinv h /\ NoDup (map wid (hws h)) /\ Forall K (hws h).
+Lemma inv0 : inv hs0.
+Proof. split; [exact hinv0|]. split; constructor. Qed.
+
+Lemma on_w_wid f w ws : (forall x, wid (fst (f x)) = wid x) -> map wid (fst (on_w f w ws)) = map wid ws.
+Proof.
+  intro Hf. induction ws as [|x r IH]; cbn; [reflexivity|]. destruct (on_w f w r) as [r' e2]. cbn in IH.
+  destruct (wid x =? w).
+  - specialize (Hf x). destruct (f x) as [x' e1]. cbn in *. congruence.
+  - cbn. congruence.
+Qed.
+Lemma K_sent1 x : K x -> K (fst (sent1 x)).
+Proof. destruct x as [i sv sl sd la rp al ho hi]. unfold K, sent1; cbn. destruct al, sd; cbn; auto. Qed.
+Lemma K_cancel1 x : K x -> K (fst (cancel1 x)).
+Proof. destruct x as [i sv sl sd la rp al ho hi]. unfold K, cancel1; cbn. destruct al; cbn; auto. Qed.
+Lemma K_cond (c : wat -> bool) st ws : Forall K ws -> Forall K (map (fun w => if c w then set_slot st w else w) ws).
+Proof.
+  intro H. apply Forall_forall. intros y Hy. apply in_map_iff in Hy. destruct Hy as (x & <- & Hx).
+  rewrite Forall_forall in H. specialize (H x Hx). destruct (c x); exact H.
+Qed.
+Lemma wid_cond (c : wat -> bool) st ws : map wid (map (fun w => if c w then set_slot st w else w) ws) = map wid ws.
+Proof. rewrite map_map. apply map_ext. intro x. destruct (c x); reflexivity. Qed.
+Lemma abs_cond (c : wat -> bool) st ws : map abs (map (fun w => if c w then set_slot st w else w) ws) = map abs ws.
+Proof. rewrite map_map. apply map_ext. intro x. destruct (c x); reflexivity. Qed.
+
+Lemma hstep_aux h o : match o with HTake _ => False | _ => True end ->
+  NoDup (map wid (hws h)) -> Forall K (hws h) ->
+  NoDup (map wid (hws (fst (fst (hstep h o))))) /\ Forall K (hws (fst (fst (hstep h o)))).
+Proof.
+  intros T N HK. destruct o; cbn [hstep]; try contradiction.
+  - destruct (hshut h); cbn [fst hws]; [auto|]. unfold push. rewrite wid_cond. split; [exact N|apply K_cond, HK].
+  - cbn [fst hws set_all]. rewrite wid_cond. split; [exact N|apply K_cond, HK].
+  - cbn [fst hws set_all]. rewrite wid_cond. split; [exact N|apply K_cond, HK].
+  - cbn [fst]. auto.
+  - destruct (has_wid w (hws h)) eqn:H; cbn [fst hws]; [auto|]. split.
+    + rewrite map_app. cbn. apply nodup_snoc; [exact N|apply has_wid_false, H].
+    + apply Forall_app. split; [exact HK|]. constructor; [|constructor]. unfold K; cbn. auto.
+  - destruct (on_w sent1 w (hws h)) as [ws e] eqn:E. cbn [fst hws].
+    change ws with (fst (ws, e)). rewrite <- E. rewrite on_w_wid by apply wid_sent1.
+    split; [exact N|]. apply on_w_ok; [apply K_sent1|exact HK].
+  - destruct (on_w cancel1 w (hws h)) as [ws e] eqn:E. cbn [fst hws].
+    change ws with (fst (ws, e)). rewrite <- E. rewrite on_w_wid by apply wid_cancel1.
+    split; [exact N|]. apply on_w_ok; [apply K_cancel1|exact HK].
+Qed.
+
+Lemma mfind_has w ws : mfind w (map abs ws) = None <-> has_wid w ws = false.
+Proof.
+  induction ws as [|x r IH]; cbn; [tauto|]. destruct (wid x =? w); cbn; [split; discriminate|exact IH].
+Qed.
+Lemma mfind_mupd_same x' l y : mfind (mid x') l = Some y -> mfind (mid x') (mupd x' l) = Some x'.
+Proof.
+  induction l as [|z r IH]; cbn; [discriminate|].
+  destruct (mid z =? mid x') eqn:E; cbn; [rewrite Z.eqb_refl; reflexivity|rewrite E; exact IH].
+Qed.
+
+(* the stream as the monitor sees it right after the driver's cancel op *)
+Definition xc (x : wat) : wat :=
+  mkwat (wid x) (wsvc x) (wslot x) (wsend x) (wlast x) (wrep x) false (whold x) (whist x).
+Lemma cancel1_sim mp x sh l : mfind (wid x) l = Some (abs (xc x)) ->
+  exists cs, mon_evs (mkmon sh mp l) (snd (cancel1 x)) = (mkmon sh mp (mupd (abs (fst (cancel1 x))) l), cs) /\
+             all_ok cs = true.
+Proof.
+  intro F. destruct x as [i sv sl sd la rp al ho hi]. unfold xc, abs in F. cbn in F.
+  unfold cancel1; cbn [walive wsend wslot wlast wid wsvc wrep whold whist].
+  destruct al; [|same F]. destruct sd as [s|].
+  - eexists. unfold abs. cbn [app snd fst mon_evs mon_ev mws wid wsvc wsend wlast wrep walive whold]. rewrite F.
+    cbn [mshut mmap mws msvc mlast mrep malive mhold msend].
+    pose proof (mfind_mupd_same (mkmw i sv None la rp false ho) l _ F) as F2. cbn [mid] in F2. rewrite F2.
+    cbn. rewrite Z.eqb_refl. split; reflexivity.
+  - eexists. unfold abs. cbn [app snd fst mon_evs mon_ev mws wid wsvc wsend wlast wrep walive whold]. rewrite F.
+    cbn. rewrite (mupd_same' _ _ _ F). split; reflexivity.
+Qed.
+
+(* -- one driver op: the op's own effect -- *)
+Definition P (h : hs) (op : word) (o : fop) : Prop :=
+  match o with HTake _ => False | _ => True end /\
+  exists m1 c1,
+    mon_op (absh h) op = Some (m1, if is_check op then [fst (snd (hstep h o)); snd (snd (hstep h o))] else []) /\
+    mon_evs m1 (snd (fst (hstep h o))) = (absh (fst (fst (hstep h o))), c1) /\ all_ok c1 = true.
+
+Lemma sim_set h svc st : P h [1; svc; st] (HSet svc st).
+Proof.
+  split; [exact I|]. destruct h as [sh mp ws]. unfold absh. cbn. destruct sh; cbn.
+  - do 2 eexists. split; [reflexivity|]. split; reflexivity.
+  - do 2 eexists. split; [reflexivity|]. unfold push. rewrite abs_cond. split; reflexivity.
+Qed.
+Lemma sim_shutdown h : P h [2] HShutdown.
+Proof.
+  split; [exact I|]. destruct h as [sh mp ws]. unfold absh. cbn.
+  do 2 eexists. split; [reflexivity|]. rewrite abs_cond. split; reflexivity.
+Qed.
+Lemma sim_resume h : P h [3] HResume.
+Proof.
+  split; [exact I|]. destruct h as [sh mp ws]. unfold absh. cbn.
+  do 2 eexists. split; [reflexivity|]. rewrite abs_cond. split; reflexivity.
+Qed.
+Lemma sim_check h svc : P h [4; svc] (HCheck svc).
+Proof.
+  split; [exact I|]. destruct h as [sh mp ws]. unfold absh. cbn.
+  destruct (lookup svc mp); cbn; do 2 eexists; (split; [reflexivity|]); split; reflexivity.
+Qed.
+Lemma sim_watch h w svc hold : P h [5; w; svc; hold] (HWatch w svc (negb (hold =? 0))).
+Proof.
+  split; [exact I|]. destruct h as [sh mp ws]. unfold absh.
+  cbn [hstep hshut hmap hws is_check mon_op mws mshut mmap].
+  destruct (has_wid w ws) eqn:H; cbn [fst snd hshut hmap hws].
+  - destruct (mfind w (map abs ws)) eqn:F; [|apply mfind_has in F; congruence].
+    do 2 eexists. split; [reflexivity|]. split; reflexivity.
+  - apply mfind_has in H. rewrite H. do 2 eexists. split; [reflexivity|]. rewrite map_app. split; reflexivity.
+Qed.
+Lemma sim_sent h w : inv h -> P h [6; w] (HSent w).
+Proof.
+  intros (HI & N & _). split; [exact I|]. destruct h as [sh mp ws]. cbn [hws] in N. unfold absh. cbn [hstep hshut hmap hws is_check mon_op].
+  destruct (has_wid w ws) eqn:H.
+  - destruct (split_unique ws w N H) as (a & x & b & -> & <- & Na & Nb).
+    rewrite (on_w_mid sent1 (wid x) a x b Na Nb eq_refl). cbn [fst snd hshut hmap hws].
+    destruct HI as (W & _). cbn [hws hmap] in W. rewrite Forall_forall in W. specialize (W x (in_elt x a b)).
+    destruct (simf_list mp sent1 a x b sh (sent1_sim mp) wid_sent1 W Na) as (cs & E & Ok).
+    do 2 eexists. split; [reflexivity|]. split; [exact E|exact Ok].
+  - rewrite (on_w_none sent1 w ws (has_wid_false w ws H)). cbn [fst snd hshut hmap hws].
+    do 2 eexists. split; [reflexivity|]. split; reflexivity.
+Qed.
+Lemma sim_cancel h w : inv h -> P h [7; w] (HCancel w).
+Proof.
+  intros (HI & N & _). split; [exact I|]. destruct h as [sh mp ws]. cbn [hws] in N. unfold absh. cbn [hstep hshut hmap hws is_check mon_op mws mshut mmap].
+  destruct (has_wid w ws) eqn:H.
+  - destruct (split_unique ws w N H) as (a & x & b & -> & <- & Na & Nb).
+    rewrite (on_w_mid cancel1 (wid x) a x b Na Nb eq_refl). cbn [fst snd hshut hmap hws].
+    rewrite (mfind_mid_abs a x b Na).
+    change (mkmw (wid x) (msvc (abs x)) (msend (abs x)) (mlast (abs x)) (mrep (abs x)) false (mhold (abs x))) with (abs (xc x)).
+    rewrite (mupd_mid_abs a x b (xc x) Na eq_refl).
+    assert (Na' : ~ In (wid (xc x)) (map wid a)) by exact Na.
+    destruct (cancel1_sim mp x sh _ (mfind_mid_abs a (xc x) b Na')) as (cs & E & Ok).
+    rewrite (mupd_mid_abs a (xc x) b (fst (cancel1 x)) Na' (wid_cancel1 x)) in E.
+    do 2 eexists. split; [reflexivity|]. split; [exact E|exact Ok].
+  - rewrite (on_w_none cancel1 w ws (has_wid_false w ws H)). cbn [fst snd hshut hmap hws].
+    apply mfind_has in H. rewrite H.
+    do 2 eexists. split; [reflexivity|]. split; reflexivity.
+Qed.
+
 Ltac zcases H :=
   repeat match type of H with
          | context[match ?x with _ => _ end] => is_var x; destruct x
          end; try discriminate H.
-
-Lemma bridge_nowatch : forall ops h m, forallb nowatch ops = true ->
-  hws h = [] -> mws m = [] -> mmap m = hmap h -> mshut m = hshut h ->
-  exists obs, cexec h ops = Some obs /\ all_ok (clauses_from m ops obs) = true.
+Lemma op_sim h op o : inv h -> base op = Some o -> P h op o.
 Proof.
-  induction ops as [|op r IH]; intros h m W Hw Mw Mm Ms; [exists []; auto|].
-  cbn [forallb] in W. apply andb_true_iff in W. destruct W as (W1 & W2).
-  destruct h as [sh mp ws]; destruct m as [msh mmp mw]; cbn in Hw, Mw, Mm, Ms; subst.
-  unfold nowatch in W1. zcases W1.
-  all: first
-    [ solve [ destruct (IH (mkhs sh mp []) (mkmon sh mp []) W2 eq_refl eq_refl eq_refl eq_refl) as (obs & E & Ok);
-              cbn; repeat match goal with |- context[lookup ?k ?mm] => destruct (lookup k mm) end;
-              eexists; cbn; rewrite E; (split; [reflexivity|]); cbn; rewrite ?Z.eqb_refl; exact Ok ]
-    | solve [ destruct (IH (set_all SERVING (mkhs sh mp []) false) (mkmon false (map (fun kv => (fst kv, SERVING)) mp) [])
-                           W2 eq_refl eq_refl eq_refl eq_refl) as (obs & E & Ok);
-              eexists; cbn; rewrite E; split; [reflexivity|]; cbn; exact Ok ]
-    | solve [ destruct (IH (set_all NOT_SERVING (mkhs sh mp []) true) (mkmon true (map (fun kv => (fst kv, NOT_SERVING)) mp) [])
-                           W2 eq_refl eq_refl eq_refl eq_refl) as (obs & E & Ok);
-              eexists; cbn; rewrite E; split; [reflexivity|]; cbn; exact Ok ]
-    | solve [ destruct sh;
-              [ destruct (IH (mkhs true mp []) (mkmon true mp []) W2 eq_refl eq_refl eq_refl eq_refl) as (obs & E & Ok)
-              | match goal with |- context[[1; ?a; ?b]] =>
-                  destruct (IH (mkhs false (upsert a b mp) []) (mkmon false (upsert a b mp) []) W2 eq_refl eq_refl eq_refl eq_refl) as (obs & E & Ok) end ];
-              eexists; cbn; rewrite E; (split; [reflexivity|]); cbn; exact Ok ] ].
+  intros I B. unfold base in B. zcases B.
+  all: inv B; first [apply sim_set | apply sim_shutdown | apply sim_resume | apply sim_check
+                    | apply sim_watch | apply sim_sent; exact I | apply sim_cancel; exact I].
 Qed.
 
-(* full statement (not proved when Watch streams are present, see spec level_note):
-     forall ops, wf [] ops = true -> exists obs, run [] ops = Some obs /\ holds_b [] ops obs = true *)
-Theorem model_trace_holds_partial ops : forallb nowatch ops = true ->
-  exists obs, run [] ops = Some obs /\ holds_b [] ops obs = true.
-Proof. intro W. exact (bridge_nowatch ops hs0 mon0 W eq_refl eq_refl eq_refl eq_refl). Qed.
+Lemma converged_ok h : hinv h -> Forall Q (hws h) -> all_ok (converged (absh h)) = true.
+Proof.
+  intros (W & _) HQ. unfold all_ok, converged, absh. cbn [mws mmap]. apply forallb_forall.
+  intros c Hc. apply in_map_iff in Hc. destruct Hc as (y & <- & Hy). apply in_map_iff in Hy.
+  destruct Hy as (x & <- & Hx). rewrite Forall_forall in W, HQ. specialize (HQ x Hx).
+  destruct (W x Hx) as (_ & B & _ & D & _). unfold Q in HQ. cbn.
+  destruct (walive x); [|reflexivity]. destruct (wsend x); [reflexivity|]. cbn.
+  rewrite (D eq_refl eq_refl), (B eq_refl (HQ eq_refl eq_refl)). apply Z.eqb_refl.
+Qed.
+
+Lemma cstep_ok h op : inv h -> op_wf op = true ->
+  exists h' o, cstep h op = Some (h', o) /\ inv h' /\
+               exists cs, clause_op (absh h) op o = (absh h', cs) /\ all_ok cs = true.
+Proof.
+  intros I Wf. unfold op_wf in Wf. destruct (base op) as [o|] eqn:B; [clear Wf|discriminate Wf].
+  destruct (op_sim h op o I B) as (T & m1 & c1 & MO & ME & O1).
+  destruct I as (HI & N & HK).
+  pose proof (hstep_inv h o HI) as HI1. destruct (hstep_aux h o T N HK) as (N1 & K1).
+  unfold cstep. rewrite B. destruct (hstep h o) as [[h1 e1] [f st]]. cbn [fst snd] in *.
+  destruct h1 as [sh mp ws]. cbn [hws] in N1, K1.
+  pose proof (hsteps_inv (settle (mkhs sh mp ws)) _ HI1) as HI2.
+  change (settle (mkhs sh mp ws)) with (flat_map sstep ws) in *.
+  pose proof (settle_run sh mp ws [] N1) as SR. cbn [app] in SR. rewrite SR in *. cbn [fst] in HI2.
+  destruct HI1 as (W1 & _). cbn [hws hmap] in W1.
+  destruct (settle_mon sh mp ws [] N1 W1) as (c2 & E2 & O2). cbn [app] in E2.
+  assert (KQ : Forall K (map g ws) /\ Forall Q (map g ws)).
+  { rewrite Forall_forall in K1. split; apply Forall_forall; intros y Hy; apply in_map_iff in Hy;
+      destruct Hy as (x & <- & Hx); apply (g_KQ x (K1 x Hx)). }
+  destruct KQ as (K2 & Q2).
+  assert (ME2 : mon_evs m1 (e1 ++ flat_map gev ws) = (absh (mkhs sh mp (map g ws)), c1 ++ c2)).
+  { rewrite mon_evs_app, ME. unfold absh at 1. cbn [hshut hmap hws]. rewrite E2. reflexivity. }
+  destruct (sort_ok _ _ _ _ ME2) as (cs' & SE & SO); [rewrite all_ok_app, O1, O2; reflexivity|].
+  do 2 eexists. split; [reflexivity|]. split.
+  - split; [exact HI2|]. split; [|exact K2]. cbn [hws]. rewrite map_map.
+    rewrite (map_ext _ wid wid_g). exact N1.
+  - unfold clause_op. rewrite MO.
+    assert (TK : take_n' (length (if is_check op then [f; st] else []))
+                         ((if is_check op then [f; st] else []) ++ enc_evs (e1 ++ flat_map gev ws)) =
+                 ((if is_check op then [f; st] else []), enc_evs (e1 ++ flat_map gev ws))).
+    { destruct (is_check op); cbn; [destruct (enc_evs (e1 ++ flat_map gev ws))|]; reflexivity. }
+    rewrite TK, dec_enc_evs, SE. eexists. split; [reflexivity|].
+    cbn [all_ok forallb snd]. rewrite word_eqb_refl. cbn [andb]. fold (all_ok (cs' ++ converged (absh (mkhs sh mp (map g ws))))).
+    rewrite all_ok_app, SO. cbn [andb]. apply converged_ok; [exact HI2|exact Q2].
+Qed.
+
+Lemma bridge_all : forall ops h, inv h -> forallb op_wf ops = true ->
+  exists obs, cexec h ops = Some obs /\ all_ok (clauses_from (absh h) ops obs) = true.
+Proof.
+  induction ops as [|op r IH]; intros h I W; [exists []; auto|].
+  cbn [forallb] in W. apply andb_true_iff in W. destruct W as (W1 & W2).
+  destruct (cstep_ok h op I W1) as (h' & o & CS & I' & cs & CO & Ok).
+  destruct (IH h' I' W2) as (obs & E & Ok2).
+  exists (o :: obs). cbn [cexec clauses_from]. rewrite CS, E, CO. split; [reflexivity|].
+  rewrite all_ok_app, Ok, Ok2. reflexivity.
+Qed.
+
+Theorem model_trace_holds cfg ops : wf cfg ops = true ->
+  exists obs, run cfg ops = Some obs /\ holds_b cfg ops obs = true.
+Proof.
+  unfold wf, run, holds_b, clauses. destruct cfg; [|discriminate]. intro W.
+  exact (bridge_all ops hs0 inv0 W).
+Qed.
